@@ -63,10 +63,18 @@ def run(tier):
                 if s["k"] == "assign" and s["r"]["k"] == "agg" and s["r"].get("adt") == RC + "ReprCString":
                     ctors.append((p, fn, body, s["r"]))
     ck.floor("ReprCString aggregate construction sites", len(ctors), 1)
+    builders_private = set()
     for p, fn, body, agg in ctors:
         key = "cglue/" + p
-        ck.ob("S3-built-only-in-constructors", key, fn.get("impl_trait") == "std::convert::From" and fn.get("impl_self_adt") == RC + "ReprCString",
-              "%s builds a ReprCString outside a From constructor" % p)
+        is_from = fn.get("impl_trait") == "std::convert::From" and fn.get("impl_self_adt") == RC + "ReprCString"
+        # a private helper shared by the constructors is a builder too: not visible outside the crate and called only by From impls of ReprCString
+        callers = sorted({q for q, g in mine.items() for _, t in mir.Body(g).calls() if (mir.callee_res(t) or mir.callee_path(t)) == p})
+        helper = not is_from and not fn.get("vis", "Public").startswith("Public") and bool(callers) and all(
+            mine[q].get("impl_trait") == "std::convert::From" and mine[q].get("impl_self_adt") == RC + "ReprCString" for q in callers)
+        if helper:
+            builders_private.add(p)
+        ck.ob("S3-built-only-in-constructors", key, is_from or helper,
+              "%s builds a ReprCString outside a From constructor (or a private helper called only by them); callers: %s" % (p, callers))
         sites = ledger.prim_sites(body)
         leaks = [s for s in sites if s.kind == "box_leak"]
         ok = len(leaks) == 1 and len(sites) == 1 and body.on_all_paths_to_return(leaks[0].bb)
@@ -119,9 +127,25 @@ def run(tier):
             body = mir.Body(fn)
             o = body.origin_local(0)
             # delegation to another From constructor of ReprCString (which is checked as a constructor or as a delegation itself)
-            target = o[4][4] if o[0] == "call" and len(o) > 4 and o[4] and len(o[4]) > 4 else ""
+            fz = o[4] if o[0] == "call" and len(o) > 4 and o[4] else ()
+            target = (fz[4] if len(fz) > 4 and fz[4] else (fz[3] if len(fz) > 3 and fz[3] else "")) or ""
             ok = o[0] == "call" and (o[1] == forward.INTO or o[1] == "std::convert::From::from") and bool(target) and "ReprCString as std::convert::From<" in target \
-                and target.rsplit("::", 1)[0] != p.rsplit("::", 1)[0]
+                and target.split(">::from")[0] != p.split(">::from")[0]
+            if not ok and o[0] == "call" and o[1] in builders_private and o[2]:
+                # delegation to the private builder: its input must be the bytes of this constructor's own argument, in order and unmodified
+                a = o[2][0]
+                chain_ok = True
+                for _ in range(8):
+                    a = mir.strip(a)
+                    if a == ("arg", 1):
+                        break
+                    if a[0] == "call" and a[2] and a[1].split("::")[-1] in ("bytes", "iter", "copied", "cloned", "into_iter", "as_bytes", "as_str", "as_ref", "deref"):
+                        a = a[2][0]
+                        continue
+                    chain_ok = False
+                    break
+                ok = chain_ok and a == ("arg", 1)
+                target = o[1]
             ck.ob("S3-delegates-to-constructor", "cglue/" + p, ok, "%s must delegate to another From constructor of ReprCString: %s" % (p, mir.fmt(o)[:160]), sample={"fn": p, "to": target})
     ck.ob("S3-not-copy", "cglue/ReprCString", not any(im.get("self_adt") == RC + "ReprCString" and im.get("trait") == "std::marker::Copy" for im in f.impls("cglue-lib")), "ReprCString implements Copy")
     # ---- Drop -------------------------------------------------------------------------------------------------
